@@ -124,7 +124,7 @@ def gen_fhist(rng):
     def fr():
         df, dt = rng.choice(FRES)
         ops = [rng.choice(FOPS[:6])] + [rng.choice(FOPS) for _ in range(rng.randint(0, 3))]
-        return dict(F=rng.choice([8, 16, 33]), T=rng.choice([2, 4, 7]), df=df, dt=dt, seed=rng.randint(0, 10 ** 6), ops=ops)
+        return dict(F=rng.choice([8, 16, 33]), T=rng.choice([2, 4, 7]), df=df, dt=dt, seed=rng.randint(0, 10 ** 6), ops=ops, t_start=rng.choice([0.0, 0, 1.6e9, 59000.5]))
     return dict(history=[fr() for _ in range(rng.randint(1, 3))], target=fr())
 
 
@@ -211,7 +211,8 @@ def run(ctx):
             ctx.impl_violation("frame-history", "a seeded frame (dt=%r, ops %s) differs when other frames (dt %s) were built before it in the same process: noise estimates %r vs alone %r"
                                % (c["target"]["dt"], c["target"]["ops"], [f["dt"] for f in c["history"]], h["stats"], b["stats"]), small)
         elif h["digest"] != h["again"] or b["digest"] != b["again"]:
-            ctx.impl_violation("same-seed-differs", "the same seeded frame workflow built twice in one process gives different frames", small)
+            ctx.impl_violation("same-seed-differs", "the same seeded frame workflow (t_start=%r) built twice in one process gives different frames (start times %r and %r)"
+                               % (c["target"].get("t_start"), b.get("t_start"), b.get("t_start_again")), small)
     n, bad = ast_seed_scan()
     ctx.extra["rng_call_sites_scanned"] = n
     for b in bad:
